@@ -227,6 +227,17 @@ func (ev *evaluator) expr(e *Expr, env *evEnv) Value {
 				ev.overflow = true
 			}
 			return r
+		case "/":
+			// Go's int division: truncation toward zero; a zero divisor is a run-time panic
+			x, y := ev.int(a), ev.int(b)
+			if y == 0 {
+				ev.stuck("panic: runtime error: integer divide by zero")
+			}
+			if x == -1<<63 && y == -1 {
+				ev.overflow = true
+				return x
+			}
+			return x / y
 		case "<":
 			return ev.int(a) < ev.int(b)
 		case ">":
